@@ -17,13 +17,20 @@
 
   API scan: `C12.file_independent` (re-exported as `api_file_independent`).
   Identifier pass: Props/C01Ident.lean (`ident_file_independent`, `runFiles_eq`); `ident_unreset` pins the
-  regenerated fact it rests on.  The bad-smell listener is not modelled as an event machine: its clause is
-  exercised through C10's histories (stateless model against one process per shard), not proved.
+  regenerated fact it rests on.
+  Bad-smell pass: its listener is not modelled callback by callback; it is modelled as an ARBITRARY
+  deterministic transition function over the package-level variables of its one source file, whose
+  constructor re-initialises every variable except those in the regenerated list
+  `Gen.Bs.listenerUnreset`.  `bs_unreset` pins that list to [] and `bs_file_independent` derives, for any
+  such transition function and any event list, that what the pass reports for a file does not depend on
+  the state left by earlier files.  (Trusted: the callbacks touch no other mutable state — the package
+  has this one file.)  The runs of C07 execute the real bad-smell app on every order / subset too.
 -/
 import CocaVerif.Model.JavaFull
 import CocaVerif.Model.Call
 import CocaVerif.Props.C12
 import CocaVerif.Gen.Ident
+import CocaVerif.Gen.Bs
 
 namespace CocaVerif.Props.C07
 open CocaVerif CocaVerif.JavaFull
@@ -136,6 +143,33 @@ theorem api_file_independent (f : C12.CFile) (hok : ∀ m ∈ f.members, m.ok) (
 
 /-- java_identifier_listener.go: every package variable is assigned by `NewJavaIdentifierListener` -/
 theorem ident_unreset : Gen.Ident.unresetGlobals = [] := rfl
+
+/-! ### bad-smell pass: a transition system over its package variables, re-initialised per file -/
+
+/-- the constructor of a listener: every package variable gets its initial value, except the listed ones -/
+def resetAllBut {V : Type} (unreset : List String) (init s : String → V) : String → V :=
+  fun v => if unreset.contains v then s v else init v
+
+/-- bad_smell_listener.go: every package variable is assigned by `NewBadSmellListener` (regenerated) -/
+theorem bs_unreset : Gen.Bs.listenerUnreset = [] := rfl
+
+/-- whatever the callbacks do with the variables (`step`), whatever is read off them at the end (`out`): the result
+    for a file's events does not depend on the state `s` / `s'` the previous files left behind -/
+theorem bs_file_independent {V Ev Out : Type} (init : String → V) (step : (String → V) → Ev → (String → V))
+    (out : (String → V) → Out) (evs : List Ev) (s s' : String → V) :
+    out (evs.foldl step (resetAllBut Gen.Bs.listenerUnreset init s)) =
+      out (evs.foldl step (resetAllBut Gen.Bs.listenerUnreset init s')) := by
+  have h : resetAllBut Gen.Bs.listenerUnreset init s = resetAllBut Gen.Bs.listenerUnreset init s' := by
+    funext v
+    simp [resetAllBut, bs_unreset]
+  rw [h]
+
+/-- and it is not true of a constructor that leaves a variable alone (what the code did before the repair): a
+    `step` that copies the variable into the result tells the two start states apart -/
+example : ∃ (s s' : String → Nat),
+    (([()] : List Unit).foldl (fun st _ => st) (resetAllBut ["fields"] (fun _ => 0) s)) "fields" ≠
+    (([()] : List Unit).foldl (fun st _ => st) (resetAllBut ["fields"] (fun _ => 0) s')) "fields" :=
+  ⟨fun _ => 1, fun _ => 2, by simp [resetAllBut]⟩
 
 /-! ### non-vacuity: two files that reuse the name `svc` with different types, run in both orders -/
 
